@@ -102,7 +102,16 @@ def build_model(spec, initialize=True, rules=True):
     # spec["late_rules"] = k: the last k rules are added with create_rule AFTER the model has been constructed (and, with
     # initialize=True, initialised) with the others -- a construction history, not a different model (seeded change S4_C09)
     late = min(int(spec.get("late_rules", 0) or 0), len(rl))
-    M = Model(species=list(spec["species"]), reactions=[reaction_tuple(r) for r in spec["reactions"]],
+    rts = [reaction_tuple(r) for r in spec["reactions"]]
+    if spec.get("shared_param_dicts"):
+        # one dict OBJECT for all reactions whose parameter dictionaries are equal, and the first mass-action dict for every other
+        # mass-action reaction with the same constant (S6_C06: the model wrote its 'species' default into the caller's dict)
+        pool = []
+        for i_, t_ in enumerate(rts):
+            same = next((d_ for d_ in pool if d_ == t_[3]), None)
+            if same is None: pool.append(t_[3])
+            else: rts[i_] = t_[:3] + (same,) + t_[4:]
+    M = Model(species=list(spec["species"]), reactions=rts,
               parameters=list(spec["parameters"].items()),
               rules=rl[:len(rl) - late],
               initial_condition_dict=dict(spec["x0"]), initialize_model=initialize)
